@@ -408,10 +408,11 @@ def findings_for(pid):
 
 # --------------------------------------------------------------------------- evidence / replay
 def write_evidence(pid, tier, seed, level, coverage, assumptions, wall, violations):
-    os.makedirs(os.path.join(VERIF, "evidence"), exist_ok=True)
+    edir = os.environ.get("VERIF_EVIDENCE_DIR") or os.path.join(VERIF, "evidence")   # seeded-change / mutant runs write elsewhere
+    os.makedirs(edir, exist_ok=True)
     ev = {"property_id": pid, "tier": tier, "seed": int(seed), "level": level, "coverage": coverage,
           "assumptions": assumptions, "wall_s": round(wall, 2), "violations": int(violations)}
-    p = os.path.join(VERIF, "evidence", pid + ".json")
+    p = os.path.join(edir, pid + ".json")
     with open(p + ".tmp", "w") as f:
         json.dump(ev, f, indent=1, sort_keys=True)
     os.replace(p + ".tmp", p)
@@ -419,7 +420,7 @@ def write_evidence(pid, tier, seed, level, coverage, assumptions, wall, violatio
 
 
 def write_replay(pid, tier, seed, n, payload):
-    d = os.path.join(VERIF, "replays", pid)
+    d = os.path.join(os.environ.get("VERIF_REPLAY_DIR") or os.path.join(VERIF, "replays"), pid)
     os.makedirs(d, exist_ok=True)
     p = os.path.join(d, "%s-seed%s-%d.json" % (tier, seed, n))
     with open(p, "w") as f:
